@@ -182,7 +182,8 @@ def fs_effects(chk, repo):
             for p_, a_ in subst.items():
                 import re as _re
                 txt = _re.sub(rf"\b{_re.escape(p_)}\b", a_, txt)
-            if "lockfile" in txt:
+            if "lockfile" in txt or ".lock'" in txt or '.lock"' in txt \
+                    or ".lock}" in txt:
                 kind = "own lock file"
             elif "tmpdir" in txt:
                 kind = "private directory"
